@@ -121,16 +121,38 @@ def tmp_worktree(repo: str | Path = ".", ref: str = "HEAD") -> Iterator[Path]:
     with TemporaryDirectory(prefix=f"{_WORKTREE_PREFIX}{repo_name}-{normref}-") as tmp_dir:
         location = os.path.join(tmp_dir, normref)  # noqa: PTH118
         tmp_branch = f"griffe-{normref}"  # Temporary branch name must not already exist.
+        # Refuse early when the branch exists: past this point, the branch deleted during cleanup
+        # can only be one that was created here.
         process = subprocess.run(
-            ["git", "-C", repo, "worktree", "add", "-b", tmp_branch, location, ref],
+            ["git", "-C", repo, "branch", "--list", tmp_branch],
             capture_output=True,
             check=False,
         )
-        if process.returncode:
-            raise RuntimeError(f"Could not create git worktree: {process.stderr.decode()}")
+        if process.returncode or process.stdout.strip():
+            reason = process.stderr.decode() or f"a branch named '{tmp_branch}' already exists"
+            raise RuntimeError(f"Could not create git worktree: {reason}")
 
         try:
+            # Within the `try` block: Git creates the branch, then the worktree. If it fails or gets interrupted
+            # in between or afterwards (failing `post-checkout` hook), whatever it created must be removed too.
+            process = subprocess.run(
+                ["git", "-C", repo, "worktree", "add", "-b", tmp_branch, location, ref],
+                capture_output=True,
+                check=False,
+            )
+            if process.returncode:
+                raise RuntimeError(f"Could not create git worktree: {process.stderr.decode()}")
             yield Path(location)
         finally:
-            subprocess.run(["git", "-C", repo, "worktree", "remove", "--force", location], stdout=subprocess.DEVNULL, check=False)
-            subprocess.run(["git", "-C", repo, "branch", "-D", tmp_branch], stdout=subprocess.DEVNULL, check=False)
+            subprocess.run(
+                ["git", "-C", repo, "worktree", "remove", "--force", location],
+                stdout=subprocess.DEVNULL,
+                stderr=subprocess.DEVNULL,
+                check=False,
+            )
+            subprocess.run(
+                ["git", "-C", repo, "branch", "-D", tmp_branch],
+                stdout=subprocess.DEVNULL,
+                stderr=subprocess.DEVNULL,
+                check=False,
+            )
